@@ -15,6 +15,10 @@
 //! property names (fresh, after deletions and re-insertions, after a
 //! persistence round trip) against the documented floors.
 //!
+//! Small-beam cells: ef_search in {1, 2, k, k+1, 50} x k in {1, 2, 10} x
+//! ef_construction {200, 8} x both strategies on a 20x20 grid (>= 2 layers),
+//! every stored vector queried; floors 0.90 (k = 1) / 0.85 (clean tree 1.000).
+//!
 //! Recall is a statistic: this part is exhaustive only over the declared
 //! layer seeds and over the crash prefixes, nothing is claimed outside.
 
@@ -410,6 +414,96 @@ fn run_matrix(mc: &MatrixCase, seed: u64, out: &mut Out) -> Result<(), Fail> {
     Ok(())
 }
 
+
+// ---------------------------------------------------------------------------
+// Small beams: the search-parameter axis (ef_search, k) on a grid data set
+// ---------------------------------------------------------------------------
+
+/// One declared small-beam cell: a side x side integer grid in the plane
+/// (Euclidean; coordinates are bf16-exact), inserted row by row, default graph
+/// degree, `ef_search` / `ef_construction` as given; EVERY stored vector is
+/// queried with top_k = `k`. With a 400-point grid the default degree gives
+/// >= 2 layers (asserted), so the greedy upper-layer descent (always a beam
+/// of 1) and, for ef_search = 1 / k = 1, a layer-0 beam of 1 carry the answer.
+#[derive(Clone, Copy, Debug, Serialize, Deserialize, PartialEq)]
+struct BeamCase {
+    strategy: SelectNeighborsStrategy,
+    side: usize,
+    ef_search: usize,
+    ef_construction: usize,
+    k: usize,
+}
+
+/// Floors of the small-beam cells. On the clean tree every cell measures 1.000
+/// for every declared layer seed, both strategies and both ef_construction
+/// values (a grid is navigable: greedy descent reaches the query point, and
+/// the k nearest grid points are adjacent to it). The floors leave a margin
+/// for other layer draws: 0.90 for k = 1 (at most 40 of 400 self-queries may
+/// miss), 0.85 for k = 2 and k = 10 with any beam. A search whose beam of 1
+/// does not move answers the entry point for every query: 1/400 = 0.0025.
+fn beam_floor(bc: &BeamCase) -> f64 {
+    if bc.k == 1 { 0.90 } else { 0.85 }
+}
+
+impl BeamCase {
+    fn workload(&self) -> String {
+        format!("beam/grid{}x{}/{:?}", self.side, self.side, self.strategy)
+    }
+}
+
+fn beam_cases(sides: &[usize], efcs: &[usize]) -> Vec<BeamCase> {
+    let mut out = Vec::new();
+    for strategy in vhnsw::sut::STRATEGIES {
+        for &side in sides {
+            for &ef_construction in efcs {
+                for k in [1usize, 2, 10] {
+                    // ef_search in {1, 2, k, k+1, default}
+                    let mut efs = vec![1, 2, k, k + 1, HnswConfig::default().ef_search];
+                    efs.sort();
+                    efs.dedup();
+                    for ef_search in efs {
+                        out.push(BeamCase { strategy, side, ef_search, ef_construction, k });
+                    }
+                }
+            }
+        }
+    }
+    out
+}
+
+fn run_beam(bc: &BeamCase, seed: u64, out: &mut Out) -> Result<(), Fail> {
+    anda_db_utils::verif::set_random_seed(Some(seed));
+    let wl = bc.workload();
+    let config = HnswConfig {
+        dimension: 2,
+        distance_metric: DistanceMetric::Euclidean,
+        select_neighbors_strategy: bc.strategy,
+        ef_search: bc.ef_search,
+        ef_construction: bc.ef_construction,
+        ..Default::default()
+    };
+    let index = anda_db_hnsw::HnswIndex::new("beam".to_string(), Some(config));
+    let mut data: BTreeMap<u64, Vec<f32>> = BTreeMap::new();
+    for y in 0..bc.side {
+        for x in 0..bc.side {
+            let id = (y * bc.side + x + 1) as u64;
+            let v = vec![x as f32, y as f32];
+            index.insert_f32(id, v.clone(), id).map_err(|e| Fail::new("insert_failed", format!("insert({id}) failed: {e}")))?;
+            data.insert(id, v);
+        }
+    }
+    if index.len() != data.len() {
+        out.hard.push(("len".into(), format!("len()={} but {} vectors inserted", index.len(), data.len())));
+    }
+    let queries: Vec<Vec<f32>> = data.values().cloned().collect();
+    let (avg, _min) = measure(&index, DistanceMetric::Euclidean, &data, &queries, bc.k).map_err(unsound)?;
+    // the cell is only meaningful with a hierarchy: at least one layer above layer 0
+    m(out, &wl, seed, &format!("layers_above_0@efc{}", bc.ef_construction), index.stats().max_layer as f64, 1.0);
+    m(out, &wl, seed, &format!("avg_recall_efs{}_k{}@efc{}", bc.ef_search, bc.k, bc.ef_construction), avg, beam_floor(bc));
+    out.queries += queries.len() as u64;
+    Ok(())
+}
+
 fn what_class(what: &str) -> &str {
     what.split('@').next().unwrap_or(what)
 }
@@ -447,6 +541,7 @@ fn report(run: &mut Run, workload: &str, replay: &Value, out: &Out, res: &Result
 enum Work {
     Documented(&'static str, SelectNeighborsStrategy, u64),
     Matrix(MatrixCase, u64),
+    Beam(BeamCase, u64),
 }
 
 impl Work {
@@ -454,12 +549,14 @@ impl Work {
         match self {
             Work::Documented(w, st, s) => json!({"workload": w, "strategy": st, "seed": s}),
             Work::Matrix(mc, s) => json!({"workload": "matrix", "matrix": mc, "seed": s}),
+            Work::Beam(bc, s) => json!({"workload": "beam", "beam": bc, "seed": s}),
         }
     }
     fn label(&self) -> String {
         match self {
             Work::Documented(w, st, _) => wl_label(w, *st),
             Work::Matrix(mc, _) => mc.workload(),
+            Work::Beam(bc, _) => bc.workload(),
         }
     }
     /// rough cost class, larger = longer (scheduling only)
@@ -469,6 +566,7 @@ impl Work {
             Work::Documented("fresh_euclidean" | "deletions", ..) => 4,
             Work::Documented("fresh_cosine", ..) => 3,
             Work::Documented(..) => 2,
+            Work::Beam(..) => 0,
             Work::Matrix(mc, _) => {
                 if mc.dim >= 32 {
                     1
@@ -482,6 +580,7 @@ impl Work {
         match self {
             Work::Documented(w, st, s) => run_workload(w, *st, *s, out),
             Work::Matrix(mc, s) => run_matrix(mc, *s, out).map(|_| None),
+            Work::Beam(bc, s) => run_beam(bc, *s, out).map(|_| None),
         }
     }
 }
@@ -497,6 +596,8 @@ fn main() {
         let seed = r["seed"].as_u64().expect("seed");
         let work = if name == "matrix" {
             Work::Matrix(serde_json::from_value(r["matrix"].clone()).expect("matrix case"), seed)
+        } else if name == "beam" {
+            Work::Beam(serde_json::from_value(r["beam"].clone()).expect("beam case"), seed)
         } else {
             let workload: &'static str = WORKLOADS.iter().find(|w| **w == name).expect("known workload");
             // replays written before the strategy axis existed mean the documented default
@@ -561,6 +662,15 @@ fn main() {
             work.push(Work::Matrix(*mc, *s));
         }
     }
+    // the small-beam cells: ef_search in {1, 2, k, k+1, default} x k in {1, 2, 10} x ef_construction {default, 8} x both strategies
+    let beam_sides: Vec<usize> = run.tier.pick(vec![20], vec![20, 32]);
+    let beam_seeds: Vec<u64> = run.tier.pick(seeds.clone(), seeds.iter().copied().take(8).collect());
+    let beams = beam_cases(&beam_sides, &[HnswConfig::default().ef_construction, 8]);
+    for bc in &beams {
+        for s in &beam_seeds {
+            work.push(Work::Beam(*bc, *s));
+        }
+    }
     // par_map hands out items from the end: longest last
     work.sort_by_key(|w| w.cost());
     let results = util::par_map(work, util::n_threads(), |w| {
@@ -578,6 +688,7 @@ fn main() {
         match &w {
             Work::Documented(..) => run.add("workload_runs", 1),
             Work::Matrix(..) => run.add("matrix_runs", 1),
+            Work::Beam(..) => run.add("small_beam_runs", 1),
         }
         for x in &out.measurements {
             // matrix rows are aggregated per (metric, strategy, assertion): worst over dimensions and seeds
@@ -669,6 +780,8 @@ fn main() {
     run.set("layer_seeds_simple_strategy", json!(simple_seeds));
     run.set("layer_seeds_crash_sweep", json!(crash_seeds));
     run.set("layer_seeds_matrix", json!(matrix_seeds));
+    run.set("small_beam_cells", json!({"grid_sides": beam_sides, "ef_search": "1, 2, k, k+1, 50", "k": [1, 2, 10], "ef_construction": [HnswConfig::default().ef_construction, 8], "strategies": 2, "layer_seeds": beam_seeds, "cells": beams.len(),
+        "floors": "k=1: 0.90, k=2|10: 0.85 (clean tree: 1.000 in every cell); layers_above_0 >= 1"}));
     run.set("matrix", json!({"metrics": 4, "strategies": 2, "dims": matrix_dims, "dims_with_reconnect_on_delete": matrix_reconnect_dims, "vectors": mn, "queries": mq, "cases": matrix.len()}));
     run.set("incremental_flush_writes_by_seed", json!(journal_lens));
     run.set("crash_margin", json!(CRASH_MARGIN));
